@@ -99,6 +99,7 @@ def cmd_worker(prop, inst, out, seed, tier):
         def body(ctx):
             E.begin_path(ctx)
             ctx.exp_underflow = bool(inst.get('exp_underflow', False))
+            ctx.sin_exact = inst.get('sin_exact', 0)
             return fn(E, **inst.get('args', {}))
         for ctx, (kind, val) in core.explore(body, E.stats, max_paths=int(inst.get('max_paths', 512))):
             if kind == 'exc':
